@@ -254,4 +254,86 @@ theorem migrations_keep_graph_keys :
     Gen.Migrations.writes.all (fun w => !graphKeys.contains w.2.2 && (w.2.2 != "uuid" || w.2.1 == "templating")) = true := by
   decide
 
+/-! ## Legacy flows: the entry node comes first -/
+
+section LegacyOrder
+open GoflowModel.Migrate
+
+theorem leY_trans (a b c : LNode) (h1 : leY a b = true) (h2 : leY b c = true) : leY a c = true := by
+  simp only [leY, decide_eq_true_eq] at *; omega
+
+theorem leY_total (a b : LNode) : (leY a b || leY b a) = true := by
+  simp only [leY, Bool.or_eq_true, decide_eq_true_eq]; omega
+
+/-- **The entry node is the first node of the migrated flow** whenever the legacy flow has it. -/
+theorem legacy_entry_first (entry : Nat) (nodes : List LNode) (h : entry ∈ nodes.map (·.1)) :
+    ((legacyOrder entry nodes).head?).map (·.1) = some entry := by
+  unfold legacyOrder entryPart
+  have hne : nodes.filter (fun n => n.1 == entry) ≠ [] := by
+    simp only [List.mem_map] at h
+    obtain ⟨n, hn, he⟩ := h
+    intro e
+    have : n ∈ nodes.filter (fun n => n.1 == entry) := by simp [List.mem_filter, hn, he]
+    rw [e] at this; cases this
+  cases hl : (nodes.filter (fun n => n.1 == entry)).getLast? with
+  | none => exact absurd (List.getLast?_eq_none_iff.1 hl) hne
+  | some n =>
+    have hm : n ∈ nodes.filter (fun n => n.1 == entry) := List.mem_of_getLast? hl
+    simp only [List.mem_filter, beq_iff_eq] at hm
+    simp [hm.2]
+
+/-- **No node is lost or duplicated** (node UUIDs are distinct): the migrated order is a
+rearrangement of the nodes. -/
+theorem legacy_order_perm (entry : Nat) (nodes : List LNode) (hd : (nodes.map (·.1)).Nodup) :
+    (legacyOrder entry nodes).Perm nodes := by
+  unfold legacyOrder
+  have hf : (nodes.filter (fun n => n.1 == entry)).length ≤ 1 := by
+    induction nodes with
+    | nil => simp
+    | cons x xs ih =>
+      simp only [List.map_cons, List.nodup_cons] at hd
+      simp only [List.filter_cons]
+      split
+      · rename_i hx
+        have : xs.filter (fun n => n.1 == entry) = [] := by
+          rw [List.filter_eq_nil_iff]
+          intro y hy hye
+          simp only [beq_iff_eq] at hx hye
+          exact hd.1 (by rw [hx, ← hye]; exact List.mem_map_of_mem hy)
+        simp [this]
+      · exact ih hd.2
+  have hsplit : ((nodes.filter (fun n => n.1 == entry)) ++ nodes.filter (fun n => !(n.1 == entry))).Perm nodes :=
+    List.filter_append_perm _ nodes
+  have he : entryPart entry nodes = nodes.filter (fun n => n.1 == entry) := by
+    unfold entryPart
+    cases hl : nodes.filter (fun n => n.1 == entry) with
+    | nil => rfl
+    | cons a t =>
+      rw [hl] at hf
+      cases t with
+      | nil => rfl
+      | cons b t' => simp at hf
+  rw [he]
+  exact (List.Perm.append_left _ (List.mergeSort_perm _ leY)).trans hsplit
+
+/-- **The other nodes follow by their vertical position** … -/
+theorem legacy_others_sorted (entry : Nat) (nodes : List LNode) :
+    ((nodes.filter (fun n => !(n.1 == entry))).mergeSort leY).Pairwise (fun a b => a.2 ≤ b.2) := by
+  have := List.pairwise_mergeSort leY_trans leY_total (nodes.filter (fun n => !(n.1 == entry)))
+  exact this.imp (by intro a b h; simpa [leY] using h)
+
+/-- … **stably**: nodes that were already in the order of their positions keep their relative order
+(in particular nodes at the same height stay in the order they were given). -/
+theorem legacy_others_stable (entry : Nat) (nodes ys : List LNode) (hs : ys.Pairwise (fun a b => leY a b = true))
+    (hsub : ys.Sublist (nodes.filter (fun n => !(n.1 == entry)))) :
+    ys.Sublist ((nodes.filter (fun n => !(n.1 == entry))).mergeSort leY) :=
+  List.sublist_mergeSort leY_trans leY_total hs hsub
+
+/-- the premises are met by a legacy flow whose entry is neither listed first nor the topmost node:
+`[a (y = 50), entry (y = 200), b (y = 10)]` -/
+example : (7 : Nat) ∈ ([(1, 50), (7, 200), (2, 10)] : List LNode).map (·.1) ∧
+    (([(1, 50), (7, 200), (2, 10)] : List LNode).map (·.1)).Nodup := by decide
+
+end LegacyOrder
+
 end GoflowModel.Props.C16
